@@ -526,7 +526,7 @@ def build_homonyms(tier, seed):
     generated code keeps per *name* (a cache, a registry, a static shared through the parent scope) would leak rules from one into the other.
     Declared in an order that interleaves the families; the monitors visit them one after another in one process."""
     b = Builder("h", tier, seed)
-    tags = ["C01", "C03", "C06", "C07", "C11", "C16"]
+    tags = ["C01", "C03", "C06", "C07", "C11"]   # not C16: its probes assume that no sanitizer moves the probe value (FA-13, FA-18)
     for rnd in range(3):
         for name in ("Code", "Value", "Id"):
             d = b.new(inner_string(), tags=list(tags), type_name=name)
